@@ -143,7 +143,8 @@ package pubsub
 //@ spec fn scoredFor(ps *peerScore, p string, t string) bool = p in ps.peerStats && (t in ps.peerStats[p].topics || t in ps.params.Topics)
 
 //@ func (*peerScore).markInvalidMessageDelivery
-//@   property C10 C04
+//@   property C10 C04 C12
+//@   safe
 //@   requires rep: scoreSep(ps)
 //@   noframe
 //@   ensures counted: old(scoredFor(ps, p, topic)) ==> tsOf(ps, p, topic).invalidMessageDeliveries == old(ite(topic in ps.peerStats[p].topics, ps.peerStats[p].topics[topic].invalidMessageDeliveries, 0.0)) + 1.0
@@ -155,7 +156,8 @@ package pubsub
 
 // First deliveries: +1 capped at FirstMessageDeliveriesCap; mesh deliveries +1 capped iff in mesh.
 //@ func (*peerScore).markFirstMessageDelivery
-//@   property C10
+//@   property C10 C12
+//@   safe
 //@   requires rep: scoreSep(ps)
 //@   noframe
 //@   ensures first: old(scoredFor(ps, p, topic)) ==> tsOf(ps, p, topic).firstMessageDeliveries ==
@@ -169,7 +171,8 @@ package pubsub
 
 // Duplicates count towards mesh deliveries only for mesh members and only inside the window.
 //@ func (*peerScore).markDuplicateMessageDelivery
-//@   property C10
+//@   property C10 C12
+//@   safe
 //@   requires rep: scoreSep(ps) && msg != nil
 //@   noframe
 //@   ensures in-window: old(p in ps.peerStats && topicOf(msg) in ps.peerStats[p].topics && ps.peerStats[p].topics[topicOf(msg)].inMesh) &&
@@ -187,7 +190,8 @@ package pubsub
 // relative to the state at lock acquisition, lin(...)) ----
 
 //@ func (*peerScore).AddPenalty
-//@   property C10
+//@   property C10 C12
+//@   safe
 //@   modifies monitor(peerScore.Mutex), scoreEpoch
 //@   ghost-effect only-that-peer: forall q string :: q != p ==> scoreEpoch[q] == old(scoreEpoch[q])
 //@   ensures counted: ps != nil && lin(p in ps.peerStats) ==> ps.peerStats[p].behaviourPenalty == lin(ps.peerStats[p].behaviourPenalty) + real(count)
@@ -198,7 +202,8 @@ package pubsub
 // Graft: the (peer, topic) counters enter the mesh with a fresh graft time, zero mesh time and
 // inactive mesh-delivery penalty; nothing else changes.
 //@ func (*peerScore).Graft
-//@   property C10
+//@   property C10 C12
+//@   safe
 //@   modifies monitor(peerScore.Mutex), tsTable, tsTopic, clock
 //@   ensures grafted: lin(scoredFor(ps, p, topic)) ==> tsOf(ps, p, topic).inMesh && tsOf(ps, p, topic).graftTime == now && tsOf(ps, p, topic).meshTime == 0 &&
 //@        !tsOf(ps, p, topic).meshMessageDeliveriesActive
@@ -211,7 +216,8 @@ package pubsub
 // Prune: the sticky mesh-failure penalty (squared deficit) is applied iff the delivery penalty
 // was active and deliveries are below the threshold; the counters leave the mesh.
 //@ func (*peerScore).Prune
-//@   property C10
+//@   property C10 C12
+//@   safe
 //@   rmul-signs
 //@   modifies monitor(peerScore.Mutex), tsTable, tsTopic
 //@   ensures out-of-mesh: lin(scoredFor(ps, p, topic)) ==> !tsOf(ps, p, topic).inMesh
@@ -231,8 +237,9 @@ package pubsub
 // queue and blacklisting penalise nobody.
 //@ spec fn nInvalid() int = calls((*peerScore).markInvalidMessageDelivery) - old(calls((*peerScore).markInvalidMessageDelivery))
 //@ func (*peerScore).RejectMessage
-//@   property C04 C10
-//@   requires msg: msg != nil
+//@   property C04 C10 C12
+//@   safe
+//@   requires msg: msg != nil && msg.Message != nil && ps.idGen != nil
 //@   noframe
 //@   loop 1 invariant counting: nInvalid() == 1 + $count && scoreSep(ps) && held(ps.Mutex)
 //@   at call markInvalidMessageDelivery#1 assert forwarder: $arg1 == msg.ReceivedFrom
@@ -247,7 +254,8 @@ package pubsub
 // DuplicateMessage: an invalid-delivery penalty iff the record says the message was invalid; a
 // mesh-delivery credit iff it was valid; nothing while undecided, ignored or throttled.
 //@ func (*peerScore).DuplicateMessage
-//@   property C04 C10
+//@   property C04 C10 C12
+//@   safe
 //@   requires msg: msg != nil && msg.Message != nil && ps.idGen != nil
 //@   noframe
 //@   ensures penalty-iff-invalid: nInvalid() == ite(lastret((*messageDeliveries).getRecord).status == deliveryInvalid &&
@@ -365,7 +373,8 @@ package pubsub
 // added exactly for the IPs above the threshold. The factor is never negative (so, the weight
 // being validated as non-positive, the component can only lower the score) and 0 for an unknown peer.
 //@ func (*peerScore).ipColocationFactor
-//@   property C10
+//@   property C10 C12
+//@   safe
 //@   rmul-signs
 //@   requires params: ps.params != nil && (forall q string :: q in ps.peerStats ==> ps.peerStats[q] != nil)
 //@   noframe
@@ -391,7 +400,8 @@ package pubsub
 // drStatusSeen[r]: the status record r had when getRecord last handed it out (definitional ghost).
 //@ ghost var drStatusSeen mmap[ref]int
 //@ func (*messageDeliveries).getRecord
-//@   property C10
+//@   property C10 C12
+//@   safe
 //@   requires rep: drRep(d)
 //@   noframe
 //@   modifies drStatusSeen
@@ -411,7 +421,8 @@ package pubsub
 // validated gets a mesh-delivery credit that is always inside the window (zero validation time);
 // nothing is credited twice: an already decided record credits nobody but the forwarder.
 //@ func (*peerScore).DeliverMessage
-//@   property C10
+//@   property C10 C12
+//@   safe
 //@   requires msg: msg != nil && msg.Message != nil && ps.idGen != nil
 //@   noframe
 //@   loop 1 invariant crediting: held(ps.Mutex) && scoreSep(ps) && drec == lastret((*messageDeliveries).getRecord)
